@@ -15,15 +15,15 @@ def main(run):
     bounds = [('A', 4, 2, 2), ('B2', 3, 2, 2), ('K', 4, 3, 3)] if quick else [('A', 5, 2, 2), ('B1', 4, 3, 3), ('B2', 4, 2, 2), ('K', 4, 3, 3), ('KO', 4, 3, 3)]
     rng = random.Random(run.seed)
     trees, _ = F.model_phase(run, bounds, ['InvC02'])
-    trees = F.cap(trees, 5000 if quick else 150000, rng, run)
-    items = [{'t': t, 'cfgs': F.rotate_cfgs(i, rng, 2 if quick else 6), 'eps': EPS} for i, t in enumerate(trees)]
+    trees = F.cap(trees, 5000 if quick else 40000, rng, run)
+    items = [{'t': t, 'cfgs': F.rotate_cfgs(i, rng, 2 if quick else 3), 'eps': EPS} for i, t in enumerate(trees)]
     nt = lambda t: any(s['k'] in ('custom', 'sub', 'none') or (s['k'] in ('dict', 'ddict') and len(s['keys']) > 1) for s in F.subtrees(t))  # noqa: E731
     for t in trees:
         if nt(t):
             run.nontrivial.add(F.tree_key(t))
     run.evaluations += F.drive_and_judge(run, 's2c', items, ['flatten', 'c02laws'])
-    rt = F.random_trees(run.seed + 1, 2000 if quick else 30000)
-    items = [{'t': t, 'cfgs': F.rotate_cfgs(i, rng, 2 if quick else 4), 'eps': EPS} for i, t in enumerate(rt)]
+    rt = F.random_trees(run.seed + 1, 2000 if quick else 12000)
+    items = [{'t': t, 'cfgs': F.rotate_cfgs(i, rng, 2 if quick else 3), 'eps': EPS} for i, t in enumerate(rt)]
     for t in rt:
         if nt(t):
             run.nontrivial.add(F.tree_key(t))
